@@ -200,6 +200,7 @@ FAILURE_STATED = {"C01", "C03", "C05", "C07", "C11", "C14", "C18"}
 REASON_OWNERS = {
     "noncanon": {"C04"},
     "srcmod": {"C15"},
+    "nonascii": {"C15"},
     "crash": {"C14", "C15"},
     "unexpected_panic": {"C14"},
     "missing_failure": {"C14"},
@@ -285,8 +286,9 @@ PROPS["C15"]["custom"] = _asmx.run
 import rbind as _rbind  # noqa: E402
 PROPS["C01"]["custom"] = _rbind.chain(_asmx.run, _rbind.machine_step)
 PROPS["C09"]["custom"] = _rbind.chain(_rbind.iter_step, _rbind.machine_step)
-for _p in ("C04", "C19", "C03", "C07", "C13", "C02", "C05", "C06", "C08", "C11", "C12", "C14"):
+for _p in ("C04", "C19", "C03", "C07", "C13", "C02", "C05", "C06", "C08", "C11", "C12"):
     PROPS[_p]["custom"] = _rbind.machine_step
+PROPS["C14"]["custom"] = _rbind.chain(_rbind.machine_step, _rbind.iter_step)
 PROPS["C10"]["custom"] = _rbind.chain(_asmx.forms_step, _rbind.machine_step)
 import costdrift as _costdrift  # noqa: E402
 PROPS["C20"]["custom"] = _costdrift.run
